@@ -29,7 +29,7 @@ fn main() {
     assert!(ser::modulus_is_bls_scalar());
     let (n_members, reps, kmax, all_pk, commit_cols) = match ctx.tier.as_str() {
         "quick" => (5usize, 2usize, 6u32, false, 3usize),
-        "thorough" => (24, 4, 9, true, 64),
+        "thorough" => (48, 4, 10, true, 64),
         _ => (10, 3, 7, true, 4),
     };
     let every = FamParams {
